@@ -22,6 +22,8 @@ def _literal_text(value) -> str:
     """
     if isinstance(value, numpy.generic) and (value.dtype.kind in "biuf"):
         value = value.item()  # numpy numbers as the Python number of the same kind (integers stay exact)
+        if isinstance(value, numpy.floating):
+            value = float(value)  # numpy.longdouble is its own item
     if not isinstance(value, (str, bool, int, float, type(None))):
         if isinstance(value, (complex, numpy.generic)):
             raise TypeError(f"can not use a {type(value)} as a constant")
@@ -237,9 +239,9 @@ def xicor_score_variables_plan(
     d_col_set = set(d.column_names)
     assert y_name in d_col_set
     assert numpy.all([c in d_col_set for c in x_vars])
-    # columns this plan adds for its own use
-    assert "_da_xicor_tmp_order" not in d_col_set
-    assert "_da_xicor_tmp_index" not in d_col_set
+    # columns this plan adds for its own use (a column of that name it does not read is overwritten, harmlessly)
+    assert "_da_xicor_tmp_order" not in (x_vars + [y_name])
+    assert "_da_xicor_tmp_index" not in (x_vars + [y_name])
     assert isinstance(n_rep, int)
     record_map = RecordMap(
         blocks_out=RecordSpecification(
